@@ -16,7 +16,7 @@ Section ValInd.
   Hypothesis HDate : forall u, P (VDate u).
   Hypothesis HTuple : forall l, Forall P l -> P (VTuple l).
   Hypothesis HList : forall l, Forall P l -> P (VList l).
-  Hypothesis HDict : forall items, Forall (fun kv => P (snd kv)) items -> P (VDict items).
+  Hypothesis HDict : forall items, Forall (fun kv => P (fst kv) /\ P (snd kv)) items -> P (VDict items).
   Fixpoint val_ind' (v : val) : P v :=
     match v with
     | VNone => HNone | VBool b => HBool b | VNum f t => HNum f t | VNaN i => HNaN i | VInf b => HInf b
@@ -25,8 +25,8 @@ Section ValInd.
                                match l with [] => Forall_nil _ | x :: l' => Forall_cons _ (val_ind' x) (go l') end) l)
     | VList l => HList l ((fix go (l : list val) : Forall P l :=
                                match l with [] => Forall_nil _ | x :: l' => Forall_cons _ (val_ind' x) (go l') end) l)
-    | VDict items => HDict items ((fix go (l : list (list N * val)) : Forall (fun kv => P (snd kv)) l :=
-                               match l with [] => Forall_nil _ | kv :: l' => Forall_cons _ (val_ind' (snd kv)) (go l') end) items)
+    | VDict items => HDict items ((fix go (l : list (val * val)) : Forall (fun kv => P (fst kv) /\ P (snd kv)) l :=
+                               match l with [] => Forall_nil _ | kv :: l' => Forall_cons _ (conj (val_ind' (fst kv)) (val_ind' (snd kv))) (go l') end) items)
     end.
 End ValInd.
 
@@ -122,7 +122,7 @@ Definition cmpn_body (x y : val) : comparison :=
   match x, y with
   | VTuple a, VTuple b => lexz cmpn a b
   | VList a, VList b => lexz cmpn a b
-  | VDict a, VDict b => thenc (lexp fst cmp_str a b) (lexp snd cmpn a b)
+  | VDict a, VDict b => thenc (lexp fst cmpn a b) (lexp snd cmpn a b)
   | _, _ => body_scalar x y
   end.
 Lemma cmpn_eq x y : cmpn x y = thenc (Z.compare (rank x) (rank y)) (thenc (Z.compare (len0 x) (len0 y)) (cmpn_body x y)).
@@ -142,9 +142,10 @@ Proof.
   - apply (lexp_TR (fun x => x) cmpn); [apply (len_eq _ _ L1) | apply (len_eq _ _ L2) | exact H].
   - apply (lexp_TR (fun x => x) cmpn); [apply (len_eq _ _ L1) | apply (len_eq _ _ L2) | exact H].
   - apply thenc_TRv; [| intros _ _].
-    + apply (lexp_TR fst cmp_str); [apply (len_eq _ _ L1) | apply (len_eq _ _ L2) |].
-      apply Forall_forall. intros kv _ a b. apply cmp_str_TR.
-    + apply (lexp_TR snd cmpn); [apply (len_eq _ _ L1) | apply (len_eq _ _ L2) | exact H].
+    + apply (lexp_TR fst cmpn); [apply (len_eq _ _ L1) | apply (len_eq _ _ L2) |].
+      eapply Forall_impl; [|exact H]. intros kv [Hk _]. exact Hk.
+    + apply (lexp_TR snd cmpn); [apply (len_eq _ _ L1) | apply (len_eq _ _ L2) |].
+      eapply Forall_impl; [|exact H]. intros kv [_ Hv]. exact Hv.
 Qed.
 
 Lemma cmpn_AS x : forall y, AS cmpn x y.
@@ -158,8 +159,8 @@ Proof.
   - apply (lexp_AS (fun x => x) cmpn). exact H.
   - apply (lexp_AS (fun x => x) cmpn). exact H.
   - apply thenc_AS; [| intros _].
-    + apply (lexp_AS fst cmp_str). apply Forall_forall. intros kv _ b. apply cmp_str_AS.
-    + apply (lexp_AS snd cmpn). exact H.
+    + apply (lexp_AS fst cmpn). eapply Forall_impl; [|exact H]. intros kv [Hk _]. exact Hk.
+    + apply (lexp_AS snd cmpn). eapply Forall_impl; [|exact H]. intros kv [_ Hv]. exact Hv.
 Qed.
 
 Lemma cmpn_refl x : cmpn x x = Eq.
@@ -168,8 +169,8 @@ Proof.
     try reflexivity; try apply Z.compare_refl; try apply cmp_str_refl.
   - apply (lexp_refl (fun x => x) cmpn). exact H.
   - apply (lexp_refl (fun x => x) cmpn). exact H.
-  - rewrite (lexp_refl fst cmp_str); [cbn; apply (lexp_refl snd cmpn); exact H |].
-    apply Forall_forall. intros. apply cmp_str_refl.
+  - rewrite (lexp_refl fst cmpn); [cbn; apply (lexp_refl snd cmpn); eapply Forall_impl; [|exact H]; intros kv [_ Hv]; exact Hv |].
+    eapply Forall_impl; [|exact H]. intros kv [Hk _]. exact Hk.
 Qed.
 
 (* ------------------------------------------------------------------ cmp : val -> val -> Z *)
